@@ -17,7 +17,7 @@ What the filter promises for (a) (aligned_indent.py: split_words, _next_token, _
    blanks only.
  A line (output split on '\n') ends in a blank iff its last character is ' ' or '\t'.
 (The Coq counterparts: Filters/AlignedSplit.v aligned_own_line, Filters/AlignedFacts.v aligned_sigleaves,
- aligned_stmt_rspec / aligned_total_partial, Filters/AlignedInstFacts.v aligned_total_refuted.)
+ aligned_stmt_rspec / aligned_total_partial, Filters/AlignedInstFacts.v aligned_case_end_fixed (was aligned_total_refuted).)
 """
 import collections
 import re
@@ -333,7 +333,7 @@ def classify(fl, kf=None):
 
 
 KNOWN = [
-    {'id': 'C07-AL-1', 'property': 'C07', 'status': 'open', 'class': 'aligned-case-end-swallowed',
+    {'id': 'C07-AL-1', 'property': 'C07', 'status': 'fixed', 'class': 'aligned-case-end-swallowed',
      'witness': 'case\nwhere end', 'options': OPTS,
      'what_fails': "format(text, reindent_aligned=True) raises ValueError('None is not in list') at aligned_indent.py:83 "
                    "(_process_case -> insert_before(None) -> TokenList.token_index) when the END keyword of a CASE is not a "
@@ -341,8 +341,8 @@ KNOWN = [
                    "('case where end'), Identifier ('case a as end', 'case::end', 'case when a then b as end'), "
                    "IdentifierList ('case,end', 'case * , end'): token_next_by(m=(Keyword,'END')) is None and the (None, [None]) "
                    "case appended for END is inserted by object",
-     'coq_witness': 'Filters/AlignedInstFacts.v: aligned_total_refuted; Filters/AlignedFacts.v: aligned_stmt_rspec'},
-    {'id': 'C07-RX-1', 'property': 'C07', 'status': 'open', 'class': 'stripws-parenthesis-swallowed',
+     'coq_witness': 'Filters/AlignedInstFacts.v: aligned_case_end_fixed (was aligned_total_refuted); Filters/AlignedFacts.v: aligned_stmt_rspec'},
+    {'id': 'C07-RX-1', 'property': 'C07', 'status': 'fixed', 'class': 'stripws-parenthesis-swallowed',
      'witness': '(as)', 'options': OPTS,
      'what_fails': "format('(as)', reindent_aligned=True) (every option that switches StripWhitespaceFilter on; also '(::)', "
                    "'(:=)', 'f( as )') raises IndexError in StripWhitespaceFilter._stripws_parenthesis: group_as / "
